@@ -43,6 +43,7 @@ ASSUMPTIONS = [
     "EST and position of already scheduled operations are not judged; job/machine completion flag "
     "not judged between 'all scheduled' and 'all completed'; machine-level duration sums and "
     "remaining-operation counts only on non-flexible instances; filters only with positive durations",
+    "feature arrays are float32 by design: instances with time values beyond 2**24 are not used here",
 ]
 REQUIRED_COUNTERS = {"episodes_after_reset": 50, "values_checked": 20000, "composite_checks": 300, "constructions": 500,
                      "obs_EarliestStartTimeObserver": 50, "obs_DurationObserver": 50,
@@ -60,7 +61,7 @@ def gen_cases(ctx):
     rng = ctx.rng
     for i in range(ctx.scale(3000, 80000)):
         filt = i % 3 == 2
-        c = gen_history_case(rng, classes=gen.POSITIVE_CLASSES if filt else gen.INSTANCE_CLASSES,
+        c = gen_history_case(rng, classes=gen.FLOAT32_EXACT_POSITIVE if filt else gen.FLOAT32_EXACT,
                              max_jobs=rng.choice([2, 3, 4, 5]), max_machines=rng.choice([2, 3, 4]),
                              filters=filt)
         mode = rng.choice(["all_composite", "all_composite", "single", "single", "subset"])
